@@ -882,11 +882,50 @@ SetterEffect(pre, e, post) ==
                                                   !.maxAcc = c.maxAcc, !.groupSize = c.groupSize, !.majorTicks = c.majorTicks]
     [] OTHER -> TRUE
 
+(* Pool creation: the new pool takes its parameters from the fee tier and the config it is created under,
+   starts empty at the given price (with the tick of that price), over the given mints and vaults; an
+   adaptive-fee pool gets an oracle carrying the tier's constants.                                  *)
+InitPoolEffect(pre, e, post) ==
+  LET q   == Id(e, "whirlpool")
+      c   == Id(e, "whirlpools_config")
+      ad  == e.name = "initialize_pool_with_adaptive_fee"
+      t   == IF ad THEN Id(e, "adaptive_fee_tier") ELSE Id(e, "fee_tier")
+      tr  == IF ad THEN pre.atier[t] ELSE pre.tier[t]
+      r   == post.pool[q]
+      va  == Id(e, "token_vault_a")
+      vb  == Id(e, "token_vault_b")
+  IN /\ Sub("new_pool", q \notin DOMAIN pre.pool /\ q \in DOMAIN post.pool)
+     /\ Sub("of_config_and_mints", r.cfg = c /\ r.mintA = Id(e, "token_mint_a") /\ r.mintB = Id(e, "token_mint_b") /\ r.vaultA = va /\ r.vaultB = vb)
+     /\ Sub("tier_parameters", r.spacing = tr.spacing /\ r.feeRate = (IF ad THEN tr.baseFeeRate ELSE tr.defaultFeeRate)
+                               /\ r.tierIndex = (IF ad THEN tr.index ELSE tr.spacing))
+     /\ Sub("config_parameters", r.protoRate = pre.cfg[c].defaultProtoRate /\ r.rewardAuth = pre.cfg[c].rewardSuperAuth)
+     /\ Sub("price_and_tick", r.sqrtPrice \doteq e.args.sqrtPrice /\ P(post, r.tick) \preceq r.sqrtPrice
+                              /\ (r.tick < 443636 => r.sqrtPrice \prec P(post, r.tick + 1)))
+     /\ Sub("starts_empty", r.liq \doteq 0 /\ r.fgA \doteq 0 /\ r.fgB \doteq 0 /\ r.protoA \doteq 0 /\ r.protoB \doteq 0
+                            /\ \A i \in 1..3 : ~r.rewards[i].init /\ r.rewards[i].emissions \doteq 0 /\ r.rewards[i].growth \doteq 0)
+     /\ Sub("vaults", /\ va \in DOMAIN post.tok /\ vb \in DOMAIN post.tok /\ va # vb
+                      /\ post.tok[va].mint = r.mintA /\ post.tok[vb].mint = r.mintB
+                      /\ post.tok[va].owner = q /\ post.tok[vb].owner = q
+                      /\ post.tok[va].amount \doteq 0 /\ post.tok[vb].amount \doteq 0
+                      /\ post.tok[va].delegate = "none" /\ post.tok[vb].delegate = "none"
+                      /\ post.tok[va].close = "none" /\ post.tok[vb].close = "none")
+     /\ Sub("oracle", IF ad
+                      THEN /\ q \in DOMAIN post.oracle
+                           /\ LET o == post.oracle[q] IN
+                              /\ o.filter = tr.filter /\ o.decay = tr.decay /\ o.reduction = tr.reduction /\ o.factor = tr.factor
+                              /\ o.maxAcc \doteq tr.maxAcc /\ o.groupSize = tr.groupSize /\ o.majorTicks = tr.majorTicks
+                              /\ o.volAcc \doteq 0 /\ o.volRef \doteq 0 /\ o.groupRef = 0
+                      ELSE q \notin DOMAIN post.oracle)
+     /\ Sub("nothing_else", ChangedKeys(e.diff, "pool") = {q} /\ ChangedKeys(e.diff, "cfg") = {} /\ ChangedKeys(e.diff, "tier") = {}
+                            /\ ChangedKeys(e.diff, "atier") = {} /\ ChangedKeys(e.diff, "pos") = {} /\ ChangedKeys(e.diff, "tick") = {})
+
 (* the per-event transition *)
 IxOK(pre, e, post) ==
   /\ Chk("C20", "sdk_quote", C20Quote(e))
   /\ Chk("C19", "params_in_bounds", C19State(post))
   /\ Chk("C19", "mint_admission", C19Admission(pre, e))
+  /\ IF e.name \in {"initialize_pool", "initialize_pool_v2", "initialize_pool_with_adaptive_fee"}
+     THEN Chk("C19", "pool_created_from_tier_and_config", InitPoolEffect(pre, e, post)) ELSE TRUE
   /\ Chk("C18", "life_cycle", C18Event(pre, e, post))
   /\ IF IsSwapName(e.name) THEN Chk("C10", "path", C10Swap(pre, e, post)) ELSE TRUE
   /\ Chk("C10", "packaging", C10Pack(pre, e))
